@@ -103,6 +103,7 @@ pub fn exec(s: &Script, st: &mut Stats) -> Result<RunInfo, Violation> {
     match s.scen.as_str() {
         "sum" => exec_sum(s, st),
         "dec" => crate::dec::exec(s, st),
+        "cabi" => crate::cabi::exec(s, st),
         _ => crate::pipe::exec(s, st),
     }
 }
@@ -123,8 +124,21 @@ fn sum_len(rng: &mut Rng) -> usize {
 }
 
 pub fn gen_c16(rng: &mut Rng, _i: u64, tier: Tier) -> Script {
-    match rng.below(4) {
-        0 | 1 => {
+    match rng.below(13) {
+        12 => {
+            // the C stream's adler field: mz_deflate / mz_inflate in lock step (cabi scenario)
+            let mut r2 = rng.fork();
+            let mut s = crate::cabi::gen_c17(&mut r2, 0, tier);
+            for _ in 0..40 {
+                if s.c("family") <= 1 {
+                    break;
+                }
+                s = crate::cabi::gen_c17(&mut r2, 0, tier);
+            }
+            s.prop = "C16".into();
+            s
+        }
+        0..=5 => {
             let mut s = Script::new("C16", "sum");
             s.set("kind", rng.below(4) as i64);
             let n = sum_len(rng);
@@ -158,15 +172,23 @@ pub fn gen_c16(rng: &mut Rng, _i: u64, tier: Tier) -> Script {
             s.set_blob("data", data);
             s
         }
-        2 => {
+        6..=8 => {
             // compressor running checksum under schedules: zlib format or C-API style flags
             let mut s = crate::props_pipe::gen_c02(rng, 0, tier);
             s.prop = "C16".into();
             s.set("clauses", PC_C02 | PC_C16);
-            if rng.chance(2, 3) {
+            if rng.chance(1, 2) {
                 s.set("zlib", 1);
                 if s.c("ctor") == 3 || s.c("ctor") == 1 {
                     s.set("window_bits", 15);
+                }
+            } else if rng.chance(2, 3) {
+                // raw stream with the checksum requested explicitly (TDEFL_COMPUTE_ADLER32)
+                s.set("ctor", 4);
+                s.set("zlib", rng.chance(1, 3) as i64);
+                s.set("window_bits", 15);
+                if s.c("level") < 0 {
+                    s.set("level", 6);
                 }
             }
             s.set("putfail", 0);
@@ -197,7 +219,7 @@ pub fn defs() -> Vec<CheckDef> {
     vec![CheckDef {
         id: "C16",
         level: "exploration",
-        runs_quick: 200_000,
+        runs_quick: 150_000,
         runs_thorough: 8_000_000,
         block: 256,
         gen: gen_c16,
